@@ -5,6 +5,7 @@ From Lal Require Import Common.LBytes Common.Res Common.LBytesRead Common.NAssoc
   Common.LBytesProofs Common.LBytesReadProofs
   Rtmp.RtmpChunk Rtmp.RtmpComposer Rtmp.RtmpComposerProofs Rtmp.RtmpAmf0 Rtmp.RtmpAmf0Proofs
   Rtmp.RtmpHandshake Rtmp.RtmpHandshakeProofs Rtmp.RtmpSession.
+From Lal Require Media.MediaMsgChecked Media.MediaMsgProofs.
 From Coq Require Import Lia ZifyN ZifyNat ZifyBool.
 Ltac Zify.zify_post_hook ::= Z.div_mod_to_equations.
 Open Scope N_scope.
@@ -384,13 +385,14 @@ Qed.
 Lemma Inv_with_st a s : score s = score (a_st a) -> Inv a -> Inv (with_st a s).
 Proof. intros Hs Ha. eapply Inv_core; [apply core_with_st, Hs|exact Ha]. Qed.
 
-Lemma Inv_emit_connect a n app : Inv a -> Inv (with_ev a (EvConnect n app)).
+Lemma Inv_emit_connect a n app :
+  Inv a -> ss_role (a_st a) = RUnknown -> Inv (with_ev a (EvConnect n app)).
 Proof.
-  intros (H1 & H2 & H3 & H4 & H5 & H6).
+  intros (H1 & H2 & H3 & H4 & H5 & H6) Er.
   unfold Inv. cbn [with_ev a_st a_depth]. repeat split; try assumption;
     try (apply H5; assumption); try (apply H6; assumption).
   unfold J. erewrite J_emit; [reflexivity|exact H4|].
-  cbn [with_ev a_st]. unfold astate_of. rewrite H3. destruct (ss_role (a_st a)); reflexivity.
+  cbn [with_ev a_st]. unfold astate_of. rewrite H3, Er. reflexivity.
 Qed.
 
 Section Fixed.
@@ -398,21 +400,30 @@ Variable env : senv.
 Hypothesis Hinst : e_install env = true.
 Hypothesis Hver : lenN (e_ver env) <= 32.
 
-Lemma ht_do_connect tid b : ht (do_connect env tid b).
+Lemma ht_do_connect tid b : ht (do_connect sv_fixed env tid b).
 Proof.
-  unfold do_connect. apply ht_bind; [apply ht_amf; [apply read_object_np|apply read_object_depth]|].
-  intros [[opa l] rest].
+  intros a Ha. unfold do_connect. rewrite bind_get. cbn [sv_connect_guard sv_fixed].
+  destruct (ss_role (a_st a)) eqn:Er;
+    [rewrite bind_ret|rewrite bind_fail; apply Inv_InvE, Ha|rewrite bind_fail; apply Inv_InvE, Ha].
+  rewrite bind_amf.
+  pose proof (read_object_depth b) as Hd.
+  destruct (fst (read_object cfg_fixed b)) as [[[opa l] rest]|e|s] eqn:Eo;
+    [|cbn [post]; apply InvE_with_depth; [exact Hd|apply Inv_InvE, Ha]|exact (read_object_np _ _ Eo)].
+  set (a1 := with_depth a (snd (read_object cfg_fixed b))).
+  assert (Ha1 : Inv a1) by (apply Inv_with_depth; assumption).
+  assert (Er1 : ss_role (a_st a1) = RUnknown) by exact Er.
+  clearbody a1. clear Ha Er.
   destruct (find_string k_app opa) as [app|].
-  - intros a Ha. rewrite bind_get, bind_put, bind_emit.
-    match goal with |- post (_ ?x) => assert (Ha1 : Inv x); [|revert Ha1; generalize x] end.
-    { apply Inv_emit_connect, Inv_with_st; [reflexivity|exact Ha]. }
+  - rewrite bind_get, bind_put, bind_emit.
+    match goal with |- post (_ ?x) => assert (Hx : Inv x); [|revert Hx; generalize x] end.
+    { apply Inv_emit_connect; [apply Inv_with_st; [reflexivity|exact Ha1]|exact Er1]. }
     apply keeps_ht.
     apply keeps_bind; [apply keeps_writer, writer_proto_ctrl|intros _].
     apply keeps_bind; [apply keeps_writer, writer_peer_bandwidth|intros _].
     apply keeps_bind; [apply keeps_writer, writer_proto_ctrl|intros _].
     apply keeps_writer, writer_connect_result, Hver.
-  - intros a Ha. rewrite bind_get, bind_put. unfold mfail. cbn [post].
-    apply Inv_InvE, Inv_with_st; [reflexivity|exact Ha].
+  - rewrite bind_get, bind_put. unfold mfail. cbn [post].
+    apply Inv_InvE, Inv_with_st; [reflexivity|exact Ha1].
 Qed.
 
 Lemma keeps_read_stream_name b : keeps (read_stream_name b).
@@ -623,19 +634,34 @@ Proof.
   unfold is_eof. intro H. apply orb_true_iff in H. destruct H as [H|H]; apply N.eqb_eq in H; auto.
 Qed.
 
-Lemma sess_loop_good : forall fuel total cst a l,
-  (length l < fuel)%nat -> Inv a ->
-  let '(o, a') := sess_loop sv_fixed env fuel total cst a l in good_outcome o /\ InvE a'.
+(* RunLoop's trace logging calls the payload helpers of base/t_rtmp.go; after C05's
+   repairs they check the payload length before they index it *)
+Lemma trace_guard_fixed trace cst' l out s :
+  trace_guard MediaMsgChecked.fixes_all trace cst' l out <> Panic s.
 Proof.
-  induction fuel as [|f IH]; intros total cst a l Hf Ha; [lia|].
-  cbn [sess_loop].
+  unfold trace_guard. destruct trace; [|discriminate].
+  destruct (completed_plain cst' l out) as [[csid msg]|]; [|discriminate].
+  match goal with |- MediaMsgChecked.orr ?x ?y <> _ =>
+    assert (H : MediaMsgProofs.is_ok (MediaMsgChecked.orr x y)) end.
+  { apply MediaMsgProofs.orr_ok; [apply MediaMsgProofs.vsh_total; reflexivity|apply MediaMsgProofs.aacsh_total; reflexivity]. }
+  destruct H as [b ->]. discriminate.
+Qed.
+
+Lemma sess_loop_good : forall fuel total cst a mm l,
+  (length l < fuel)%nat -> Inv a ->
+  let '(o, a', _) := sess_loop sv_fixed env fuel total cst a mm l in good_outcome o /\ InvE a'.
+Proof.
+  induction fuel as [|f IH]; intros total cst a mm l Hf Ha; [lia|].
+  cbn [sess_loop sv_rv sv_fixed sv_fx].
   destruct (compose_chunk rv_fixed cst l) as [cst' out rest|cst' out e] eqn:E.
   - apply compose_chunk_consumes in E.
-    match goal with |- context [run_cbs _ _ ?c out a] => pose proof (ht_run_cbs c out a Ha) as Hr;
-      destruct (run_cbs sv_fixed env c out a) as [[x|e'|s] a1] end; cbn [post] in Hr.
-    + apply IH; [lia|apply Inv_commit, Hr].
-    + split; [exact I|apply InvE_discard, Hr].
-    + contradiction.
+    destruct (trace_guard MediaMsgChecked.fixes_all (e_trace env) cst' l out) as [b|e0|s] eqn:Et;
+      [| |exfalso; exact (trace_guard_fixed _ _ _ _ _ Et)].
+    all: match goal with |- context [run_cbs _ _ ?c ?o ?a0] => pose proof (ht_run_cbs c o a0 Ha) as Hr;
+      destruct (run_cbs sv_fixed env c o a0) as [[x|e'|s'] a1] end; cbn [post] in Hr.
+    all: try contradiction.
+    all: try (apply IH; [lia|apply Inv_commit, Hr]).
+    all: split; [exact I|apply InvE_discard, Hr].
   - match goal with |- context [run_cbs _ _ ?c out a] => pose proof (ht_run_cbs c out a Ha) as Hr;
       destruct (run_cbs sv_fixed env c out a) as [[x|e'|s] a1] end; cbn [post] in Hr.
     + destruct (is_eof e) eqn:Ee.
@@ -645,9 +671,9 @@ Proof.
     + contradiction.
 Qed.
 
-Lemma Inv_init : Inv init_acc.
+Lemma Inv_init : Inv (init_acc env).
 Proof.
-  unfold Inv, J, init_acc, init_sstate, astate_of. cbn. repeat split; try reflexivity; try discriminate; try lia.
+  unfold Inv, J, init_acc, init_sstate_at, astate_of. cbn. repeat split; try reflexivity; try discriminate; try lia.
 Qed.
 
 End Fixed.
@@ -667,9 +693,9 @@ Proof.
   unfold run_session.
   destruct (run_handshake hmac (e_now env) (e_rnd env) input) as [simple w rest|w e|s] eqn:E.
   - pose proof (sess_loop_good env Hinst Hver (S (length rest)) (lenN input)
-                  (init_cstate default_chunk_size) init_acc rest (Nat.lt_succ_diag_r _) Inv_init) as H.
-    destruct (sess_loop sv_fixed env (S (length rest)) (lenN input) (init_cstate default_chunk_size) init_acc rest)
-      as [o a]. destruct H as (Ho & Hd & HJ). cbn [r_out r_depth r_ev r_st]. repeat split; assumption.
+                  (init_cstate default_chunk_size) (init_acc env) [] rest (Nat.lt_succ_diag_r _) (Inv_init env)) as H.
+    destruct (sess_loop sv_fixed env (S (length rest)) (lenN input) (init_cstate default_chunk_size) (init_acc env) [] rest)
+      as [[o a] mm]. destruct H as (Ho & Hd & HJ). cbn [r_out r_depth r_ev r_st]. repeat split; assumption.
   - cbn [r_out r_depth r_ev r_st]. repeat split; [|lia].
     unfold run_handshake in E.
     destruct (takeN input c0c1_len) as [[c0c1 r1]|].
@@ -749,17 +775,18 @@ Proof.
   apply dm_bind; [apply dm_do_msg|intros _; exact IH].
 Qed.
 
-Lemma sess_loop_depth : forall fuel total cst a l,
-  a_depth a <= 32 -> a_depth (snd (sess_loop v env fuel total cst a l)) <= 32.
+Lemma sess_loop_depth : forall fuel total cst a mm l,
+  a_depth a <= 32 -> a_depth (snd (fst (sess_loop v env fuel total cst a mm l))) <= 32.
 Proof.
-  induction fuel as [|f IH]; intros total cst a l Ha; [exact Ha|].
+  induction fuel as [|f IH]; intros total cst a mm l Ha; [exact Ha|].
   cbn [sess_loop].
-  destruct (compose_chunk rv_fixed cst l) as [cst' out rest|cst' out e].
+  destruct (compose_chunk (sv_rv v) cst l) as [cst' out rest|cst' out e].
+  - destruct (trace_guard (sv_fx v) (e_trace env) cst' l out); [| |exact Ha].
+    all: match goal with |- context [run_cbs _ _ ?c ?o ?a0] => pose proof (dm_run_cbs c o a0 Ha) as Hr;
+      destruct (run_cbs v env c o a0) as [[x|e'|s'] a1] end; cbn [snd fst] in *; try exact Hr.
+    all: apply IH; exact Hr.
   - match goal with |- context [run_cbs _ _ ?c out a] => pose proof (dm_run_cbs c out a Ha) as Hr;
-      destruct (run_cbs v env c out a) as [[x|e'|s] a1] end; cbn [snd] in *; try exact Hr.
-    apply IH. exact Hr.
-  - match goal with |- context [run_cbs _ _ ?c out a] => pose proof (dm_run_cbs c out a Ha) as Hr;
-      destruct (run_cbs v env c out a) as [[x|e'|s] a1] end; cbn [snd] in *; try exact Hr.
+      destruct (run_cbs v env c out a) as [[x|e'|s] a1] end; cbn [snd fst] in *; try exact Hr.
     destruct (is_eof e); exact Hr.
 Qed.
 
@@ -767,8 +794,8 @@ Lemma run_session_depth hmac input : r_depth (run_session hmac v env input) <= 3
 Proof.
   unfold run_session.
   destruct (run_handshake hmac (e_now env) (e_rnd env) input) as [simple w rest|w e|s]; cbn [r_depth]; try lia.
-  pose proof (sess_loop_depth (S (length rest)) (lenN input) (init_cstate default_chunk_size) init_acc rest) as H.
-  destruct (sess_loop v env (S (length rest)) (lenN input) (init_cstate default_chunk_size) init_acc rest) as [o a].
-  cbn [r_depth snd] in *. apply H. cbn. lia.
+  pose proof (sess_loop_depth (S (length rest)) (lenN input) (init_cstate default_chunk_size) (init_acc env) [] rest) as H.
+  destruct (sess_loop v env (S (length rest)) (lenN input) (init_cstate default_chunk_size) (init_acc env) [] rest) as [[o a] mm].
+  cbn [r_depth snd fst] in *. apply H. cbn. lia.
 Qed.
 End Depth.
